@@ -458,6 +458,8 @@ def readFromListener (lid : Lid) : List A → G → G × List A
         readFromListener lid r (dataCb f.2 f.1)
       | some sid => readFromListener lid r (dataCb sid g)
     | .eof => readFromListener lid r g
+    -- key(from) failed (FC06a): the datagram is dropped with an error event - no session, no index entry, no callback
+    | .dgramNoKey => readFromListener lid r g
     | _ => (g, r)
 
 /-- mirrors UdpEngine::flushListener (listener write queue only) -/
@@ -578,10 +580,13 @@ def viaDo (lid : Lid) (k : Key) (as : List A) (g : G) : G × List A :=
     if !resolved then (failConnect .vResolveFail g, r.2) else
     let p2 := peekA .noMatch r.2
     if p2.1 then (failConnect .vAfMismatch g, p2.2) else
-    if capReached g then (failConnect .vCap g, p2.2) else
+    -- key(to): an empty key (getnameinfo failed) is refused before _peerIndex is touched (FC06a): one close, nothing created
+    let p3 := peekA .keyFail p2.2
+    if p3.1 then (failConnect .vKeyFail g, p3.2) else
+    if capReached g then (failConnect .vCap g, p3.2) else
     match g.cur with
-    | none => ({ g with stale := true }, p2.2)
-    | some sid => (viaIndex sid k (connectNow (some k) lid false g), p2.2)
+    | none => ({ g with stale := true }, p3.2)
+    | some sid => (viaIndex sid k (connectNow (some k) lid false g), p3.2)
 
 /-- mirrors one iteration of the command loop of UdpEngine::process -/
 def dispatch (as : List A) (g : G) : G × List A :=
